@@ -31,6 +31,7 @@ const c11Shared = `(do
   (def shared-fn (fn [x] (* x 3)))
   (defmacro shared-mac (fn [x] (list '+ x 100)))
   (def spin (fn [n] (if (> n 0) (spin (- n 1)) nil)))
+  (def tmp-helper (fn [x] (* x 1000)))
   nil)`
 
 var c11Locals = []string{"a", "b", "c", "e", "x", "v", "n", "acc", "r", "f", "k", "tmp", "tmp2"}
@@ -84,6 +85,14 @@ var c11Templates = []struct {
 	{"memoize-shared-arg", `(do (def T-mm (memoize (fn [x] (* x N)))) (list (T-mm 2) (T-mm 3) (T-mm 2)))`},
 	{"update-in", `(update-in {:a {:b N}} [:a :b] (fn [v] (+ v 1)))`},
 	{"sleepless-deref", `(let [f (future N) r (future (+ N 1))] (list @f @r @f))`},
+	// a name made by gensym is used as a global by this evaluation only: nobody else may be handed the same one
+	{"gensym-global", `(let [g (gensym)] (do (eval (list 'def g N)) (spin 3) (eval g)))`},
+	{"gensym-many", `(let [a (gensym) b (gensym) c (gensym)] (do (eval (list 'def a N)) (eval (list 'def b (+ N 1))) (eval (list 'def c (+ N 2))) (spin 2) (list (eval a) (eval b) (eval c))))`},
+	// a local helper defined after a future was started in the same (parameterless) call scope shadows the
+	// shared global of the same name for that future's body too; the body waits on the fake clock, so the
+	// definition is in place whatever the schedule
+	{"late-local-helper", `((fn [] (do (def fut (future (do (sleep 1) (tmp-helper 2)))) (def tmp-helper (fn [x] (* x N))) @fut)))`},
+	{"late-local-helper2", `((fn [] (do (def fut (future (do (sleep 2) (list (tmp-helper 1) (tmp-helper 3))))) (spin 2) (def tmp-helper (fn [x] (+ x N))) @fut)))`},
 }
 
 type c11Prog struct {
